@@ -4,12 +4,14 @@
 //! calls, `ConnectionTracker::allow_peer` for a fresh non-reserved and for every reserved
 //! peer (hook `config::verif_hooks`), and both peer tables.
 mod c31;
+mod c32;
 
 use vcommon::{Rng, T};
 
 fn gen(prop: &str, rng: &mut Rng, n: u64, tier: &str) -> Vec<T> {
     match prop {
         "C31" => c31::gen(rng, n, tier),
+        "C32" => c32::gen(rng, n, tier),
         p => panic!("unknown property {p}"),
     }
 }
@@ -17,6 +19,7 @@ fn gen(prop: &str, rng: &mut Rng, n: u64, tier: &str) -> Vec<T> {
 fn run(prop: &str, input: &T) -> T {
     match prop {
         "C31" => c31::run(input),
+        "C32" => c32::run(input),
         p => panic!("unknown property {p}"),
     }
 }
